@@ -23,6 +23,7 @@ type c06Expiry struct {
 }
 
 type c06Case struct {
+	Empty    bool      `json:"empty,omitempty"` // the layout has neither steps nor inspections
 	World    hx.World  `json:"world"`
 	Expiry   c06Expiry `json:"expiry"`
 	StepName string    `json:"step_name"` // name requested for the summary link (irrelevant for expiry)
@@ -92,6 +93,7 @@ func c06Gen(t *rapid.T) c06Case {
 	o.MaxInspections = 2
 	c := c06Case{World: hx.GenWorld(t, o), StepName: rapid.SampledFrom([]string{"", "", "final", "step0"}).Draw(t, "stepname"),
 		ZoneSecs: rapid.SampledFrom([]int{0, 0, -8 * 3600, 5*3600 + 1800, -12 * 3600, 14 * 3600, -3600}).Draw(t, "zone"), Params: rapid.Bool().Draw(t, "params")}
+	c.Empty = rapid.IntRange(0, 7).Draw(t, "emptylayout") == 0
 	switch rapid.IntRange(0, 10).Draw(t, "expirykind") {
 	case 10:
 		// spellings the Go parser tolerates although they are not YYYY-MM-DDTHH:MM:SSZ (one-digit hour,
@@ -159,6 +161,11 @@ func c06Run(c c06Case, r *hx.Rec) error {
 	}
 	lay := *w.Layout.Meta.Layout
 	lay.Expires = expiry
+	if c.Empty {
+		lay.Steps, lay.Inspect = []hx.MStep{}, []hx.MInspection{}
+		w.Links = nil
+		r.Label("empty-layout")
+	}
 	w.Layout.Meta = hx.MMeta{Layout: &lay}
 	root, err := os.MkdirTemp("", "c06-")
 	if err != nil {
@@ -189,7 +196,7 @@ func c06Run(c c06Case, r *hx.Rec) error {
 	r.Label("entry=%s", w.Entry)
 	r.Label("mode=%s", c.Expiry.Mode)
 	r.Label("zone=%d", c.ZoneSecs/3600)
-	r.Key("%s|%s|%s|%s|%d|%s|%s", w.Layout.Wrapper, w.Entry, c.Expiry.Mode, c.Expiry.Abs, c.Expiry.Rel, c.Expiry.Text, fmt.Sprint(len(lay.Steps), len(lay.Inspect)))
+	r.Key("%s|%s|%s|%s|%d|%s|%s|%v", w.Layout.Wrapper, w.Entry, c.Expiry.Mode, c.Expiry.Abs, c.Expiry.Rel, c.Expiry.Text, fmt.Sprint(len(lay.Steps), len(lay.Inspect)), c.Empty)
 	if out.Panic != nil {
 		return fmt.Errorf("expiry %q: verification panicked: %v", expiry, out.Panic)
 	}
